@@ -1,1 +1,61 @@
-fn main(){ println!("hi"); }
+//! verif-check <ID> quick|thorough        run the checks of one property
+//! verif-check --replay <file>            re-run one saved case
+//! verif-check <ID> <tier> --sub <name>   run a single sub-check (no evidence written)
+
+mod engine;
+mod wire;
+mod props;
+
+use engine::{Ctx, Tier};
+
+fn main() {
+    engine::install_panic_hook();
+    let args: Vec<String> = std::env::args().skip(1).collect();
+    let all = props::all();
+
+    if let Some(i) = args.iter().position(|a| a == "--replay") {
+        let Some(path) = args.get(i + 1) else {
+            eprintln!("--replay needs a file");
+            std::process::exit(2);
+        };
+        std::process::exit(engine::replay_file(&all, path));
+    }
+    if args.first().map(String::as_str) == Some("--list") {
+        for p in &all {
+            for s in &p.subs {
+                println!("{} {}", p.id, s.name());
+            }
+        }
+        return;
+    }
+
+    let Some(id) = args.first() else {
+        eprintln!("usage: verif-check <ID> quick|thorough [--sub name] | --replay <file> | --list");
+        std::process::exit(2);
+    };
+    let tier = match std::env::var("VERIF_TIER").ok().as_deref().or(args.get(1).map(String::as_str)) {
+        Some("thorough") => Tier::Thorough,
+        _ => Tier::Quick,
+    };
+    // An explicit tier argument wins over the environment.
+    let tier = match args.get(1).map(String::as_str) {
+        Some("thorough") => Tier::Thorough,
+        Some("quick") => Tier::Quick,
+        _ => tier,
+    };
+    let seed = std::env::var("VERIF_SEED").ok().and_then(|s| s.trim().parse::<u64>().ok()).unwrap_or(20260925);
+    let shards = std::env::var("VERIF_SHARDS")
+        .ok()
+        .and_then(|s| s.parse().ok())
+        .unwrap_or_else(|| std::thread::available_parallelism().map_or(8, |n| n.get()).min(16));
+    let scale = std::env::var("VERIF_SCALE").ok().and_then(|s| s.parse().ok()).unwrap_or(1.0);
+    let only_sub = args.iter().position(|a| a == "--sub").and_then(|i| args.get(i + 1)).cloned();
+
+    let Some(p) = all.iter().find(|p| p.id == id.as_str()) else {
+        eprintln!("unknown property {id}");
+        std::process::exit(2);
+    };
+    let ctx = Ctx { tier, seed, shards, scale };
+    let code = engine::run_property(p, &ctx, only_sub.as_deref());
+    std::process::exit(code);
+}
